@@ -320,3 +320,34 @@ def cases(rng, tier):
     yield from _collision_wallets(rng, tier)
     yield from _deep_root_wallets(rng, tier)
     yield from extra.cases_for('paths', rng, tier)
+
+
+def extra_checks(rng, tier, g, info):
+    """a wallet whose root is a node DERIVED in this process (it has a parent object and a depth): a path string is
+    applied component by component to the wallet's root — the given node — not to some other node of the tree"""
+    n = 0
+    for _ in range(2 if tier == "quick" else 30):
+        base = impl.make_wallet("xkey:" + sx(XPRV))
+        for up in ([44 + 2 ** 31, 2 ** 31, 2 ** 31], [0], [1, 2, 3, 4, 5, 6]):
+            node = base.master.derive_path(up)
+            w = type(base)(master=node)
+            pub = type(base)(master=impl.bip32.PubKeyNode(key=node.public_key.sec(), chain_code=node.chain_code,
+                                                          index=node.index, depth=node.depth, parent=node.parent
+                                                          if hasattr(node, "parent") else None))
+            for root, wal in (("m", w), ("M", pub)):
+                ls = [rng.choice([0, 1, 7, 2 ** 31 - 1]) for _ in range(rng.randint(0, 4))]
+                text = "/".join([root] + [str(i) for i in ls])
+                n += 1
+                try:
+                    got = wal.by_path(text)
+                    want = wal.master.derive_path(ls)
+                    same = (got.public_key.sec(), got.chain_code, got.depth, got.index) == \
+                        (want.public_key.sec(), want.chain_code, want.depth, want.index)
+                except Exception as e:
+                    same = False
+                    got = e
+                if not same:
+                    yield ("# wallet built on the node at %s below %s; by_path(%r)" % (up, XPRV, text),
+                           "the path was not applied to the wallet's own root component by component (%r)" % (got,))
+                    return
+    info["derived_root_lookups"] = n
